@@ -20,13 +20,20 @@ slicing-problems:
 
 PRELUDE = '''package main
 
+type In struct {
+	x string
+	y string
+}
+
 type S struct {
-	f string
-	g string
-	n *S
-	m map[string]string
-	l []string
-	h func(string) string
+	f  string
+	g  string
+	n  *S
+	m  map[string]string
+	l  []string
+	h  func(string) string
+	in In
+	v  any
 }
 
 type I interface {
@@ -193,7 +200,7 @@ class FuncGen:
     # ---- statements
     def stmt(self, depth=0):
         r = self.rng
-        kinds = ["decl", "decl", "assign", "sink", "sink", "fanin", "gwrite", "gwrite", "fwrite", "selfcopy", "gptr", "call", "closure0", "closure1",
+        kinds = ["decl", "decl", "assign", "sink", "sink", "nest", "nest", "fanin", "gwrite", "gwrite", "fwrite", "selfcopy", "gptr", "call", "closure0", "closure1",
                  "iface", "tuple", "slice", "map", "ptr", "chan", "gfunc", "sdecl", "awrite", "mwrite", "lwrite",
                  "ifacecall", "sanit", "triple"]
         if depth < 2:
@@ -235,6 +242,24 @@ class FuncGen:
             if t.startswith("&") or t.endswith(")"):
                 t = "GS"
             self.emit("%s.%s = %s" % (t, r.pick(["f", "g"]), self.s()))
+        elif k == "nest" and self.structs:
+            # nested struct values and interface-typed fields: access paths with a non-leaf prefix (.in and .in.x)
+            t = r.pick(self.structs)
+            c = r.below(7)
+            if c == 0:
+                self.emit("%s.in.x = %s" % (t, self.s()))
+            elif c == 1:
+                self.emit("%s.in = In{x: %s, y: %s}" % (t, self.s(1), self.s(1)))
+            elif c == 2:
+                self.emit("%s.v = In{x: %s, y: %s}" % (t, self.s(1), self.s(1)))
+            elif c == 3:
+                self.emit("%s.in = %s.v.(In)" % (t, r.pick(self.structs)))
+            elif c == 4:
+                self.emit("sink1(%s.in.y)" % t)
+            elif c == 5:
+                self.emit("sink1(%s.in)" % t)
+            else:
+                self.emit("%s.in.y = %s.in.x + %s" % (t, r.pick(self.structs), self.s(1)))
         elif k == "fanin":
             # several distinct source call sites reach one sink call
             n = 3 + r.below(3)
@@ -455,4 +480,51 @@ def diamond(rng):
         out += ["\tw%d := pass%d(%s)" % (i, i, cur)]
         cur = "w%d" % i
     out += ["\tsink1(%s)" % cur, "}", ""]
+    return "\n".join(out)
+
+
+def pathfam(rng):
+    """Program family for field-sensitive access paths: one summary edge whose output paths include a non-leaf
+    path and extensions of it (o.in and o.in.x from one parameter), read back through sibling sub-fields. Two styles:
+    a carrier struct returned by the source and a local struct value passed on by value; or pointers throughout."""
+    by_value = rng.chance(60)
+    fills = ["o.in = c.v.(inner)", "o.in.x = c.w", "o.in.y = c.w", "o.z = c.w", "o.in = inner{x: c.w, y: c.u}",
+             "o.in.x = c.u", 'o.z = "ok"']
+    if not by_value:
+        fills += ["o.p.in = c.v.(inner)", "o.p.in.y = c.w"]
+    n = 2 + rng.below(3)
+    chosen = [rng.pick(fills) for _ in range(n)]
+    if rng.chance(50):
+        chosen = ["o.in = c.v.(inner)", rng.pick(["o.in.x = c.w", "o.in.y = c.u", "o.in.x = c.u"])] + chosen[:1]
+    uses = ["o.in.y", "o.in.x", "o.in", "o.z"] + ([] if by_value else ["o.p.in.x", "o.p.in"])
+    nuse = 1 + rng.below(3)
+    # the sibling of a sub-field that is written next to the whole struct is the interesting read
+    forced = []
+    if "o.in = c.v.(inner)" in chosen:
+        if any(c.startswith("o.in.x") for c in chosen):
+            forced.append("o.in.y")
+        if any(c.startswith("o.in.y") for c in chosen):
+            forced.append("o.in.x")
+    out = ["package main", "",
+           "type inner struct{ x, y string }",
+           "type outer struct {", "\tin inner", "\tz  string", "\tp  *outer", "}",
+           "type carrier struct {", "\tv any", "\tw string", "\tu string", "}", "",
+           'func source1() carrier { return carrier{v: inner{x: "s", y: "s"}, w: "s", u: "s"} }',
+           "func sink1(x any)        {}", ""]
+    if by_value:
+        for k in range(nuse):
+            out += ["func use%d(o outer) {" % k, "\tsink1(%s)" % (forced[k] if k < len(forced) else rng.pick(uses)), "}", ""]
+        out += ["func repack(c carrier) {", "\tvar o outer"]
+        out += ["\t" + f for f in chosen]
+        out += ["\tuse%d(o)" % k for k in range(nuse)]
+        out += ["}", "", "func main() {", "\tc := source1()", "\trepack(c)", "}", ""]
+    else:
+        out += ["func fill(o *outer, c carrier) {"]
+        out += ["\t" + f for f in chosen]
+        out += ["}", ""]
+        for k in range(nuse):
+            out += ["func use%d(o *outer) {" % k, "\tsink1(%s)" % (forced[k] if k < len(forced) else rng.pick(uses)), "}", ""]
+        out += ["func main() {", "\tc := source1()", "\to := &outer{p: &outer{}}", "\tfill(o, c)"]
+        out += ["\tuse%d(o)" % k for k in range(nuse)]
+        out += ["}", ""]
     return "\n".join(out)
